@@ -20,6 +20,7 @@ import Hannibal.Monitor.C15
 import Hannibal.Monitor.C17
 import Hannibal.Monitor.C17R
 import Hannibal.Monitor.SendErr
+import Hannibal.Monitor.CancelErr
 /- Registry: property id → monitor run on one actor's labels (index of first violation). -/
 namespace Hannibal.Driver
 open Hannibal
@@ -50,7 +51,8 @@ def runMonitor (pid : String) (c : MonCtx) (ls : List Label) : Option (Option Na
       ff (monC04 c) ls, ff (monC06 c) ls,
       ff monC02c ls,                     -- a call whose message was handled to completion does not return an error
       ff monC04p ls,                     -- a ping begun after an accepted stop returned never returns Ok
-      ff monSendErr ls] ++ wfAll c ls)) -- only operations begun after the end of the task are refused (`SendErr_holds`)
+      ff monSendErr ls,                  -- only operations begun after the end of the task are refused (`SendErr_holds`)
+      ff monCancelErr ls] ++ wfAll c ls)) -- a call / ping is cancelled only for a reason (`CancelErr_holds`)
   | "C03" => some (firstSome ([ff (monC03 c) ls, ff (monC03q c) ls] ++ wfAll c ls))
   | "C04" => some (firstSome ([ff (monC04 c) ls, ff (monC04q c) ls,
       -- "halt and join resolve only after stopped has finished ... an error / None when the actor failed"
@@ -72,6 +74,7 @@ def runMonitor (pid : String) (c : MonCtx) (ls : List Label) : Option (Option Na
       ff (monC05 c) ls, ff (monC05q c) ls] ++ wfAll c ls))   -- "timers never keep the actor alive"
   | "C11" => some (firstSome ([ff (monC11 c) ls, ff (monC11p c) ls,
       ff (monC11c c) ls,          -- the caller of an abandoned invocation gets an error (proved)
+      ff monCancelErr ls,         -- ... and nobody else's call does while the actor lives on (`CancelErr_holds`)
       -- "state intact afterwards", and no change of incarnation that nobody asked for
       ff (monC01 c) ls, ff (monC07 c) ls] ++ wfAll c ls))
   | "C12" => some (firstSome ([ff (monC12 c.cfg.cap) ls,
